@@ -188,6 +188,33 @@ Record regvalues := mkRV {
   rv_fieldlists : list (list byte * (reg * gvalue))
 }.
 
+(* ---- registerApi.go: ReadRegisterList's collector closures ----
+   m[k] = v on a Go map, kept as an association list with replace-on-equal-key (iteration order is chosen by an
+   oracle wherever a map is ranged over, see range_map) *)
+Definition key_eqb (a b : list byte) : bool := if list_eq_dec Byte.byte_eq_dec a b then true else false.
+
+Fixpoint g_mset (k : list byte) (v : reg * gvalue) (m : list (list byte * (reg * gvalue))) : list (list byte * (reg * gvalue)) :=
+  match m with
+  | [] => [(k, v)]
+  | (k', v') :: r => if key_eqb k' k then (k, v) :: r else (k', v') :: g_mset k v r
+  end.
+
+(* one invocation of the collector of the value's kind: rv.XValues[v.Name()] = v *)
+Definition g_put (m : regvalues) (d : reg * gvalue) : regvalues :=
+  let k := name_bytes (fst d) in
+  match snd d with
+  | GNum _ => mkRV (g_mset k d (rv_numbers m)) (rv_texts m) (rv_enums m) (rv_fieldlists m)
+  | GText _ => mkRV (rv_numbers m) (g_mset k d (rv_texts m)) (rv_enums m) (rv_fieldlists m)
+  | GEnum _ => mkRV (rv_numbers m) (rv_texts m) (g_mset k d (rv_enums m)) (rv_fieldlists m)
+  | GFields _ => mkRV (rv_numbers m) (rv_texts m) (rv_enums m) (g_mset k d (rv_fieldlists m))
+  end.
+
+(* the number of handler invocations made on this object so far *)
+Definition p_out_len : D nat := fun s => (DVal (List.length (a_out s)), s).
+(* what the collector closures did to [rv] during the invocations made since then, in their order *)
+Definition p_collect_since (n0 : nat) (rv : regvalues) : D regvalues :=
+  fun s => (DVal (fold_left g_put (skipn n0 (a_out s)) rv), s).
+
 (* sort.SliceStable(list, func(i, j int) bool { return list[i].Sort() < list[j].Sort() }) *)
 Definition value_key (v : reg * gvalue) : Z := r_sort (fst v).
 Definition g_sort_values_stable (l : list (reg * gvalue)) : list (reg * gvalue) :=
